@@ -522,3 +522,32 @@ for _k in ("C17", "C18", "C19", "C20"):
                               "what": "E-TCP scenarios under ThreadSanitizer (the cluster code on a multi-thread runtime with real sockets)"})
     PROPS[_k]["level_note"] += (" E-TCP runs drive the same property over real loopback TCP (listener, client_connect, NetworkStream halves); what did not happen "
                                 "within a wall-clock bound there is reported as inconclusive, never as a violation.")
+
+# ---- additions after the third wave of seeded changes (DESIGN.md section 7)
+_SER_WHAT = ("engine 'ser' (E-A): wire-format delivery (send_serialized casts and calls, incl. calls whose reply port is already closed or dropped) mixed with typed "
+             "sends to a Send actor with a derived message enum; at most one message carries a panic / Err")
+for _k in ("C01", "C02", "C04"):
+    PROPS[_k]["runs"].append({"engine": "ser", "quick": 8000, "thorough": 400000, "what": _SER_WHAT})
+    PROPS[_k]["runs"].append({"engine": "ser", "build": "asan", "quick": 800, "thorough": 25000, "timeout_s": 7200, "what": "engine 'ser' under AddressSanitizer + LeakSanitizer"})
+_DTAB_WHAT = ("engine 'dtab' (E-T, no runtime): bare threads create named detached cells, join/leave/monitor groups with their own and with each other's cells, look names and "
+              "members up and exit their cells (the real exit cleanup) under H1 noise; history-free end-state oracle (surviving holders, single-writer membership, listing, "
+              "internal indexes, nothing sticks to an exited cell, a surviving monitor is still listed)")
+for _k in ("C10", "C11"):
+    PROPS[_k]["runs"].append({"engine": "dtab", "quick": 64000, "thorough": 3200000, "what": _DTAB_WHAT})
+    PROPS[_k]["runs"].append({"engine": "dtab", "build": "tsan", "quick": 3200, "thorough": 160000, "timeout_s": 7200,
+                              "what": "engine 'dtab' under ThreadSanitizer (the scenario keeps no shared log, so the registry / pg tables are the only synchronisation)"})
+    PROPS[_k]["runs"].append({"engine": "miri", "build": "miri", "quick": 48, "thorough": 1600, "timeout_s": 14400,
+                              "what": "E-M: the same detached-cell tables scenario (2-3 threads, 4-8 operations each) interpreted by Miri: UB, data races and weak-memory behaviours in ractor's use of DashMap, the reverse-index mutexes and the registry"})
+_EXTRA3 = {
+    "C01": "Engine 'ser' delivers messages in wire format (send_serialized) as a node session does; a failing handler reached that way must end the actor like any other.",
+    "C02": "Engine 'ser': accepted wire-format casts and calls (also calls whose reply port is closed before delivery) are handled exactly once, in order with typed sends. Senders also go through a DerivedActorRef.",
+    "C04": "36 more cases with a *draining* supervisor (backlog + drain() before the child exits): still a living supervisor, it must get exactly one terminal event. Engine 'ser': a handler failure on a wire-format message is reported once.",
+    "C06": "A third of the stop/kill/drain scenarios link a spawn_instant child to the subject by hand just before the exit is requested: it may still be Unstarted when the subject exits and counts among the children that must have been signalled.",
+    "C07": "Senders also go through a DerivedActorRef (a refused send must hand the derived message back).",
+    "C08": "New cause PreStartSyncPanic (a hand-written pre_start that panics in its synchronous part after its side effects; the panic unwinds through the spawn call) for all four spawn APIs; aborted instant spawns are also linked from outside while still Unstarted.",
+    "C09": "Timeouts include 0 ms.",
+    "C10": "A failing-start spawn_instant actor is watched through its reference: once Stopped is seen the name must be free (lookup, re-spawn). A pid lifecycle listener must never hear about a spawn that was refused (cluster build).",
+    "C11": "The detached-cell engine lets threads monitor / join with each other's cells while the owner exits them, and checks that a surviving monitor is still listed.",
+}
+for _k, _t in _EXTRA3.items():
+    PROPS[_k]["level_note"] = (PROPS[_k].get("level_note", "") + " " + _t).strip()
